@@ -21,6 +21,10 @@ pub enum Mk {
     Toy(LinePath),
     /// grep-regex matcher for the pattern `m` with the line terminator set
     Regex,
+    /// grep-regex matcher built the way `rg -U --crlf` builds it (CRLF mode,
+    /// multi-line, no line terminator) for `m[^\n]?`: it can match `\r` but
+    /// never `\n`, so a multi-line request still runs line by line
+    RegexCr,
 }
 
 #[derive(Clone, Copy, Debug)]
@@ -104,6 +108,11 @@ pub fn make_matcher(mk: Mk, term: Term) -> AnyMatcher {
                 }
             }
             AnyMatcher::Regex(b.build("m").unwrap_or_else(|_| machinery_error("regex m does not build")))
+        }
+        Mk::RegexCr => {
+            let mut b = RegexMatcherBuilder::new();
+            b.crlf(true).line_terminator(None).multi_line(true);
+            AnyMatcher::Regex(b.build("m[^\\n]?").unwrap_or_else(|_| machinery_error("regex m[^\\n]? does not build")))
         }
     }
 }
